@@ -137,7 +137,7 @@ theorem associatePT_skip (lrv : Nat) (tmpl : List Desired) (r : Ref) (rs : List 
 theorem associatePT_cons (lrv : Nat) (tmpl : List Desired) (r : Ref) (rs : List Ref) (acc : Assoc) (k : Assoc → P)
     (hn : r.name ≠ "") :
     associatePT lrv tmpl (r :: rs) acc k =
-      .call (.getObj r.kind r.name) fun
+      .call (.getCached r.kind r.name) fun
         | .found o => assocFound lrv tmpl rs acc k r o
         | .notFound => .call (.getObj r.kind r.name) fun
           | .found o => assocFound lrv tmpl rs acc k r o
@@ -161,7 +161,8 @@ theorem emits_wcall {Q : Req → Prop} (hst : ∀ l, Q (.statusUpdate l)) (lrv :
 /-- Under every fault plan, the association loop issues garbage-collection requests only for
 references whose object (as it was when the reconcile started) is annotated with a name that
 is not a template, and is not controlled by someone else. -/
-theorem emits_associatePT {Q : Req → Prop} (hget : ∀ k n, Q (.getObj k n)) (hst : ∀ l, Q (.statusUpdate l))
+theorem emits_associatePT {Q : Req → Prop} (hget : ∀ k n, Q (.getObj k n)) (hgetc : ∀ k n, Q (.getCached k n))
+    (hst : ∀ l, Q (.statusUpdate l))
     (objs0 : List CObj) (refs0 : List Ref) (lrv : Nat) (tmpl : List Desired) (k : Assoc → P)
     (hk : ∀ a, Issues Q (k a))
     (hQ : ∀ kk n o, (⟨kk, n⟩ : Ref) ∈ refs0 → n ≠ "" → findObj objs0 kk n = some o → o.annot ≠ "" →
@@ -203,16 +204,21 @@ theorem emits_associatePT {Q : Req → Prop} (hget : ∀ k n, Q (.getObj k n)) (
               exact ih acc _ hrs' (hfd.delete _ _)
       cases hf : findObj s.objs r.kind r.name with
       | some o =>
-        simp only [Emits, sem, exec_getObj_some hf, isRead, if_true]
-        exact ⟨hget _ _, hfound o hf, emits_onError _ hst _, emits_onError _ hst _⟩
+        by_cases hmiss : (⟨r.kind, r.name⟩ : Ref) ∈ s.miss
+        · -- missing from the cache: the live read finds it
+          simp only [Emits, sem, exec_getCached_miss hmiss, exec_getObj_some hf, isRead, if_true]
+          exact ⟨hgetc _ _, ⟨hget _ _, hfound o hf, emits_onError _ hst _, emits_onError _ hst _⟩,
+            emits_onError _ hst _, emits_onError _ hst _⟩
+        · simp only [Emits, sem, exec_getCached_some hf hmiss, isRead, if_true]
+          exact ⟨hgetc _ _, hfound o hf, emits_onError _ hst _, emits_onError _ hst _⟩
       | none =>
-        simp only [Emits, sem, exec_getObj_none hf, isRead, if_true]
-        exact ⟨hget _ _, ⟨hget _ _, ih acc s hrs' hfd, emits_onError _ hst _, emits_onError _ hst _⟩,
+        simp only [Emits, sem, exec_getCached_none hf, exec_getObj_none hf, isRead, if_true]
+        exact ⟨hgetc _ _, ⟨hget _ _, ih acc s hrs' hfd, emits_onError _ hst _, emits_onError _ hst _⟩,
           emits_onError _ hst _, emits_onError _ hst _⟩
 
 /-! ### the rest of the P&T composer issues no garbage-collection request -/
 
-theorem issues_renderPT {Q : Req → Prop} (hget : ∀ k n, Q (.getObj k n)) (hst : ∀ l, Q (.statusUpdate l))
+theorem issues_renderPT {Q : Req → Prop} (hget : ∀ k n, Q (.getCached k n)) (hst : ∀ l, Q (.statusUpdate l))
     (lrv : Nat) (a : Assoc) (k : List Rendered → P) (hk : ∀ rs, Issues Q (k rs)) :
     ∀ (ds : List Desired) (fresh : List String) (acc : List Rendered), Issues Q (renderPT lrv a ds fresh acc k) := by
   intro ds
@@ -294,7 +300,7 @@ theorem emits_composePT {Q : Req → Prop} (hQ : ∀ r, NoGc r → Q r) (tmpl : 
       tmpl.any (·.rname = o.annot) = false → o.ctrl ≠ .other → Q (.gcUpdate kk n) ∧ Q (.delete kk n)) :
     Emits sem Q (composePT lrv s0.refs tmpl fresh ver) s := by
   rw [composePT_eq]
-  exact emits_associatePT (fun _ _ => hQ _ trivial) (fun _ => hQ _ trivial) s0.objs s0.refs lrv tmpl _
+  exact emits_associatePT (fun _ _ => hQ _ trivial) (fun _ _ => hQ _ trivial) (fun _ => hQ _ trivial) s0.objs s0.refs lrv tmpl _
     (issues_ptTail hQ lrv tmpl fresh ver) hgc s0.refs [] s (fun _ h => h) (hobjs ▸ Faded.refl _)
 
 /-! ### fault-free run of the association loop -/
@@ -309,7 +315,8 @@ theorem reached_wcall {C : Req → Prop} {lrv : Nat} {r : Req} {k : Resp → P} 
 /-- On a fault-free run that gets past the association, every reference whose object exists
 and is annotated with a name that is no template has had both garbage-collection requests
 applied. -/
-theorem reached_associatePT {C : Req → Prop} (hget : ∀ k n, ¬ C (.getObj k n)) (hst : ∀ l, ¬ C (.statusUpdate l))
+theorem reached_associatePT {C : Req → Prop} (hget : ∀ k n, ¬ C (.getObj k n)) (hgetc : ∀ k n, ¬ C (.getCached k n))
+    (hst : ∀ l, ¬ C (.statusUpdate l))
     (hgu : ∀ k n, ¬ C (.gcUpdate k n)) (hdel : ∀ k n, ¬ C (.delete k n))
     (lrv : Nat) (tmpl : List Desired) (k : Assoc → P) :
     ∀ (rs : List Ref) (acc : Assoc) (s : St), Reached C (associatePT lrv tmpl rs acc k) s →
@@ -327,11 +334,11 @@ theorem reached_associatePT {C : Req → Prop} (hget : ∀ k n, ¬ C (.getObj k 
       · exact absurd hn hrn
       · exact ih acc s h r hr hrn o hf ht
     · rw [associatePT_cons _ _ _ _ _ _ hn] at h ⊢
-      have h1 := reached_call (hget _ _) h
+      have h1 := reached_call (hgetc _ _) h
       rw [okApplied_call]
       cases hf0 : findObj s.objs r0.kind r0.name with
       | none =>
-        rw [exec_getObj_none hf0] at h1 ⊢
+        rw [exec_getCached_none hf0] at h1 ⊢
         simp only [] at h1 ⊢
         have h2 := reached_call (hget _ _) h1
         rw [okApplied_call]
@@ -343,39 +350,55 @@ theorem reached_associatePT {C : Req → Prop} (hget : ∀ k n, ¬ C (.getObj k 
           exact ⟨List.mem_cons_of_mem _ (List.mem_cons_of_mem _ this.1),
             List.mem_cons_of_mem _ (List.mem_cons_of_mem _ this.2)⟩
       | some o0 =>
-        rw [exec_getObj_some hf0] at h1 ⊢
-        simp only [] at h1 ⊢
-        obtain ⟨_, hk1, hk2⟩ := findObj_some hf0
-        unfold assocFound at h1 ⊢
-        by_cases ha : o0.annot = ""
-        · simp only [ha, if_true] at h1; exact absurd h1 (not_reached_onError hst)
-        · simp only [ha, if_false] at h1 ⊢
-          by_cases ht0 : (tmpl.any (·.rname = o0.annot)) = true
-          · simp only [ht0, if_true] at h1 ⊢
-            rcases List.mem_cons.mp hr with rfl | hr
-            · rw [hf0] at hf; cases hf; rw [ht0] at ht; cases ht
-            · have := ih _ s h1 r hr hrn o hf ht
-              exact ⟨List.mem_cons_of_mem _ this.1, List.mem_cons_of_mem _ this.2⟩
-          · simp only [ht0, Bool.false_eq_true, if_false] at h1 ⊢
-            by_cases hc : o0.ctrl = .other
-            · simp only [hc, if_true] at h1; exact absurd h1 (not_reached_onError hst)
-            · simp only [hc, if_false] at h1 ⊢
-              have h2 := reached_wcall (hgu _ _) (exec_gcUpdate_resp ..) h1
-              rw [exec_gcUpdate_state] at h2
-              have h3 := reached_wcall (hdel _ _) (exec_delete_resp ..) h2
-              rw [okApplied_wcall (exec_gcUpdate_resp ..), exec_gcUpdate_state,
-                okApplied_wcall (exec_delete_resp ..)]
-              rw [hk1, hk2] at h3 ⊢
-              by_cases hsame : r.kind = r0.kind ∧ r.name = r0.name
-              · rw [hsame.1, hsame.2]
-                exact ⟨List.mem_cons_of_mem _ (List.mem_cons_self ..),
-                  List.mem_cons_of_mem _ (List.mem_cons_of_mem _ (List.mem_cons_self ..))⟩
-              · rcases List.mem_cons.mp hr with rfl | hr
-                · exact absurd ⟨rfl, rfl⟩ hsame
-                · have hf' : findObj (exec s (.delete r0.kind r0.name)).1.objs r.kind r.name = some o := by
-                    rw [findObj_delete_other hsame]; exact hf
-                  have := ih acc _ h3 r hr hrn o hf' ht
-                  exact ⟨List.mem_cons_of_mem _ (List.mem_cons_of_mem _ (List.mem_cons_of_mem _ this.1)),
-                    List.mem_cons_of_mem _ (List.mem_cons_of_mem _ (List.mem_cons_of_mem _ this.2))⟩
+        -- what follows once the object has been read (from the cache, or live after a miss)
+        have hfound : Reached C (assocFound lrv tmpl rs acc k r0 o0) s →
+            Req.gcUpdate r.kind r.name ∈ okApplied (assocFound lrv tmpl rs acc k r0 o0) s ∧
+            Req.delete r.kind r.name ∈ okApplied (assocFound lrv tmpl rs acc k r0 o0) s := by
+          intro h1
+          obtain ⟨_, hk1, hk2⟩ := findObj_some hf0
+          unfold assocFound at h1 ⊢
+          by_cases ha : o0.annot = ""
+          · simp only [ha, if_true] at h1; exact absurd h1 (not_reached_onError hst)
+          · simp only [ha, if_false] at h1 ⊢
+            by_cases ht0 : (tmpl.any (·.rname = o0.annot)) = true
+            · simp only [ht0, if_true] at h1 ⊢
+              rcases List.mem_cons.mp hr with rfl | hr
+              · rw [hf0] at hf; cases hf; rw [ht0] at ht; cases ht
+              · exact ih _ s h1 r hr hrn o hf ht
+            · simp only [ht0, Bool.false_eq_true, if_false] at h1 ⊢
+              by_cases hc : o0.ctrl = .other
+              · simp only [hc, if_true] at h1; exact absurd h1 (not_reached_onError hst)
+              · simp only [hc, if_false] at h1 ⊢
+                have h2 := reached_wcall (hgu _ _) (exec_gcUpdate_resp ..) h1
+                rw [exec_gcUpdate_state] at h2
+                have h3 := reached_wcall (hdel _ _) (exec_delete_resp ..) h2
+                rw [okApplied_wcall (exec_gcUpdate_resp ..), exec_gcUpdate_state,
+                  okApplied_wcall (exec_delete_resp ..)]
+                rw [hk1, hk2] at h3 ⊢
+                by_cases hsame : r.kind = r0.kind ∧ r.name = r0.name
+                · rw [hsame.1, hsame.2]
+                  exact ⟨List.mem_cons_self ..,
+                    List.mem_cons_of_mem _ (List.mem_cons_self ..)⟩
+                · rcases List.mem_cons.mp hr with rfl | hr
+                  · exact absurd ⟨rfl, rfl⟩ hsame
+                  · have hf' : findObj (exec s (.delete r0.kind r0.name)).1.objs r.kind r.name = some o := by
+                      rw [findObj_delete_other hsame]; exact hf
+                    have := ih acc _ h3 r hr hrn o hf' ht
+                    exact ⟨List.mem_cons_of_mem _ (List.mem_cons_of_mem _ this.1),
+                      List.mem_cons_of_mem _ (List.mem_cons_of_mem _ this.2)⟩
+        by_cases hmiss : (⟨r0.kind, r0.name⟩ : Ref) ∈ s.miss
+        · rw [exec_getCached_miss hmiss] at h1 ⊢
+          simp only [] at h1 ⊢
+          have h2 := reached_call (hget _ _) h1
+          rw [okApplied_call]
+          rw [exec_getObj_some hf0] at h2 ⊢
+          simp only [] at h2 ⊢
+          have := hfound h2
+          exact ⟨List.mem_cons_of_mem _ (List.mem_cons_of_mem _ this.1),
+            List.mem_cons_of_mem _ (List.mem_cons_of_mem _ this.2)⟩
+        · rw [exec_getCached_some hf0 hmiss] at h1 ⊢
+          simp only [] at h1 ⊢
+          have := hfound h1
+          exact ⟨List.mem_cons_of_mem _ this.1, List.mem_cons_of_mem _ this.2⟩
 
 end Xp.C01
